@@ -114,14 +114,6 @@ int main() {
       for (size_t i = 0; i < countof(c); i++) printf(" %llu", (unsigned long long)c[i]);
       printf("\n");
     }
-    // behavioural probe: does validate() refuse an embedded broadcast on an instruction that defines none? (mov eax, [ebx]{1to2})
-    {
-      x86::Mem m = x86::ptr(x86::ebx);
-      m.set_broadcast(x86::Mem::Broadcast::k1To2);
-      Operand_ ops[2] = { x86::eax, m };
-      Error e = InstAPI::validate(Arch::kX86, BaseInst(Inst::kIdMov), ops, 2);
-      printf("x86.strict_bcst 1 %u\n", unsigned(e == Error::kInvalidBroadcast));
-    }
     // file-static tables of x86instapi.cpp
     {
       using namespace InstInternal;
